@@ -697,6 +697,31 @@ def run(ctx: Ctx):
         cases.append((nm, F.place(n, o, d), 0))
         meta_of[nm] = {"site": n, "own": F._tag(o), "dflt": F._tag(d), "translated": repr(g), "specified": repr(w)}
         ctx.count("counter-model:" + n)
+    # 5b. the other loaders (Router / Firewall / WirelessRouter.from_config): every keyword argument read from the file is translated
+    #     (Gen kwargTable, C20_gen_kwargs_resolve); the same expressions evaluated against `kwSpec` on the value grid give the
+    #     counter-models, and both spellings of an ACL address x {absent, null, an address} go through the real loader on every ACL
+    try:
+        kcms = F.kw_counter_models()
+        kcm_detail = "; ".join(f"{r['function']} {r['callee']}({r['keyword']}=): {r['own_key']}={F._tag(o)} {r['alt_key'] or '-'}={F._tag(a)} -> "
+                               f"loader expression gives {g!r}, declared meaning {w!r}" for r, o, a, g, w in kcms[:4])
+    except Exception as e:
+        kcms, kcm_detail = [], f"translation not available ({type(e).__name__}: {str(e)[:160]})"
+        ctx.count("kw-counter-models:translation-not-available")
+        ctx.oblige("extract:every keyword argument of the router-like loaders that reads the file is translatable", "extractor", False, kcm_detail)
+    ctx.oblige("rig:the regenerated translation of every keyword argument of Router / Firewall / WirelessRouter.from_config meets kwSpec on the value grid",
+               "correspondence", not kcms, kcm_detail)
+    for r, o, a, g, w in kcms:
+        for j, c in enumerate(F.place_kw(r, o, a) or []):
+            nm = f"kw-counter-model:{r['function']}:{r['keyword']}:{j}:own={F._tag(o)}:alt={F._tag(a)}"
+            if nm not in meta_of:
+                cases.append((nm, c, 0))
+                meta_of[nm] = {"site": f"kw:{r['function']}:{r['keyword']}", "own": F._tag(o), "dflt": F._tag(a), "translated": repr(g), "specified": repr(w)}
+                ctx.count("kw-counter-model:" + r["keyword"])
+    srng = ctx.rng.fork("acl-spelling")
+    for nm, cfg, meta in F.acl_spelling_grid():
+        if ctx.thorough or srng.chance(1, 3):
+            cases.append((nm, cfg, 0))
+            meta_of[nm] = meta
     fam = F.two_source_grid()
     sf = F.schema_falsy_cases() + F.node_state_cases() + F.agent_settings_cases(ctx.rng.fork("falsy-agents"))
     if not ctx.thorough:   # quick: the two-source grid in full, the schema-driven family thinned (every option still appears over seeds)
@@ -739,7 +764,7 @@ def run(ctx: Ctx):
             mo = (out[st + ln - 3], out[st + ln - 2], out[st + ln - 1])
             modelled += 1
             ctx.cov["traces_validated_against_impl"] += 1
-        family = kind in ("two-source", "falsy", "counter-model")
+        family = kind in ("two-source", "falsy", "counter-model", "kw-counter-model", "acl-spelling")
         small = (kind in ("gen", "matrix", "corpus") or not name.startswith(("shipped:uc7", "scheduled:uc7"))) and not family
         fails, inv = check_scenario(cfg, mo, twice=small or (ctx.thorough and not family), ctx=ctx)
         if family:
